@@ -225,7 +225,7 @@ def r3_attribute_names(a, tier):
         'one source for attribute names: the model-class generator takes the fields of a rule\'s class from rule.defines_single / '
         'defines_list, the same lists Model._add_defined hands to ctx.define (the keys of the AST); SynthNode.__post_init__ sets '
         'exactly the AST items as attributes and BaseNode.__post_init__ injects AST keys into declared fields',
-        floor=3,
+        floor=2,
     )
     ad = a.p.func('tatsu.peg.base.Model._add_defined')
     src = {norm(n) for n in walk_no_defs(ad.node) if isinstance(n, ast.Attribute) and n.attr in ('defines_single', 'defines_list')}
@@ -243,19 +243,9 @@ def r3_attribute_names(a, tier):
     rep.add({'model_generator_reads': sorted(reads), 'ok': ok})
     if not ok:
         rep.fail(gen.qualname, 'generator-defines', 'the model-class generator does not take field names from the rule\'s defines lists', gen.loc)
-    sp = a.p.func('tatsu.objectmodel.synth.SynthNode.__post_init__')
-    ok = any(isinstance(n, ast.For) and isinstance(n.iter, ast.Call) and isinstance(n.iter.func, ast.Attribute) and n.iter.func.attr == 'items'
-             and norm(through_locals(sp, n.iter.func.value)) == 'self.ast' and any(
-        isinstance(x, ast.Call) and dotted(x.func) == 'setattr' and norm(x.args[0]) == 'self' for x in ast.walk(n)) for n in walk_no_defs(sp.node))
-    rep.add({'SynthNode_sets_ast_items_as_attributes': ok})
-    if not ok:
-        rep.fail(sp.qualname, 'synth-attrs', 'SynthNode.__post_init__ does not set every AST item as an attribute', sp.loc)
-    bp = a.p.func('tatsu.objectmodel.basenode.BaseNode.__post_init__')
-    ok = any(isinstance(x, ast.Call) and dotted(x.func) == 'setattr' and len(x.args) == 3 and isinstance(x.args[2], ast.Subscript)
-             and norm(through_locals(bp, x.args[2].value)) == 'self.ast' and norm(x.args[2].slice) == norm(x.args[1]) for x in walk_no_defs(bp.node))
-    rep.add({'BaseNode_injects_ast_keys': ok})
-    if not ok:
-        rep.fail(bp.qualname, 'basenode-attrs', 'BaseNode.__post_init__ does not inject the AST values into the declared fields', bp.loc)
+    # (that SynthNode / BaseNode turn the AST items into attributes is decided by interpretation: C07.R5, construction)
+    a.p.func('tatsu.objectmodel.synth.SynthNode.__post_init__')
+    a.p.func('tatsu.objectmodel.basenode.BaseNode.__post_init__')
     return rep
 
 
